@@ -563,6 +563,22 @@ def run_case(kind, p):
                     msgs.append(f"{p.get('what')}: len(indices) != number of selected peaks")
                 if len(r.selector) and np.any(np.asarray(p["elev"], dtype=float)[r.selector] < p["min_weight"]):
                     msgs.append(f"{p.get('what')}: selected peak below min_weight")
+            if p.get("nan_elev_index") is not None:
+                # a peak whose elevation is NaN (e.g. from a dead pixel in its correlation map) is not ">= min_weight": it is
+                # rejected like any weak peak, and the other peaks are matched as if it were not there
+                k_ = int(p["nan_elev_index"])
+                keep = np.arange(len(p["pts"])) != k_
+                q_ = dict(p, pts=np.asarray(p["pts"])[keep], elev=np.asarray(p["elev"], dtype=float)[keep])
+                q_.pop("nan_elev_index")
+                r0 = call(q_)
+                if is_invalid(r) != is_invalid(r0):
+                    msgs.append(f"one peak with NaN elevation on a lattice node: the match is "
+                                f"{'invalid' if is_invalid(r) else 'valid'}, without that peak it is {'invalid' if is_invalid(r0) else 'valid'}")
+                elif not is_invalid(r):
+                    if r.selector[k_]:
+                        msgs.append("a peak with NaN elevation is selected")
+                    if not np.array_equal(np.asarray(r.selector)[keep], r0.selector):
+                        msgs.append("one peak with NaN elevation changes the selection of the other peaks")
             if p.get("must_be_invalid") and not is_invalid(r):
                 msgs.append(f"{p.get('what')}: expected the invalid match, got zero={np.asarray(r.zero).tolist()} "
                             f"selector={np.asarray(r.selector).astype(int).tolist()}")
@@ -593,6 +609,11 @@ def adversarial(rng):
     mk("all weights zero", True, elev=np.zeros(n))
     mk("all weights below min_weight", True, elev=np.full(n, 0.01))
     mk("NaN weights", True, elev=np.full(n, np.nan))
+    inl = np.flatnonzero(np.asarray(base["kind"]) == 0)
+    for j_ in inl[:2]:
+        e_ = np.asarray(base["elev"], dtype=float).copy()
+        e_[j_] = np.nan
+        mk("one NaN elevation on a lattice node", False, elev=e_, nan_elev_index=int(j_))
     mk("all points identical", False, pts=np.tile(base["pts"][:1], (n, 1)))
     mk("duplicated points", False, pts=np.vstack([base["pts"], base["pts"]]), elev=np.concatenate([base["elev"]] * 2))
     i0 = np.arange(n, dtype=float)
